@@ -56,9 +56,11 @@ def run_index(prop, seed, idx, profile, minimise=True):
     case = props.gen_case(prop, rng, profile)
     case["seed"] = seed
     case["index"] = idx
-    ex = props.execute(case)
+    ex, case, execs = props.execute_search(case)
+    case.setdefault("seed", seed)
+    case.setdefault("index", idx)
     res = {"idx": idx, "digest": ex.digest, "stats": ex.stats, "violation": None,
-           "nops": len(case["ops"]), "batch": profile.get("batch")}
+           "nops": len(case["ops"]), "batch": profile.get("batch"), "execs": execs}
     res["shape"] = hashlib.sha256(json.dumps(
         [[o["k"], o.get("m"), bool(o.get("dialect"))] for o in case["ops"]]).encode()).hexdigest()[:12]
     if ex.switch_logs:
